@@ -76,6 +76,28 @@ type DeclC struct {
 	Vendors []*diam.AVP         `avp:"Supported-Vendor-Id"`
 }
 
+// DeclD: embedded structs whose TYPES are unexported (their tagged fields are exported and
+// reachable all the same), at top level and inside a group struct.
+type declOrigin struct {
+	OriginHost  string                    `avp:"Origin-Host"`
+	OriginRealm datatype.DiameterIdentity `avp:"Origin-Realm"`
+}
+
+type declIDs struct {
+	AuthAppID uint32  `avp:"Auth-Application-Id"`
+	VendorID  *uint32 `avp:"Vendor-Id,omitempty"`
+}
+
+type DeclGroupD struct {
+	declIDs
+}
+
+type DeclD struct {
+	declOrigin
+	VSA    DeclGroupD `avp:"Vendor-Specific-Application-Id"`
+	Result uint32     `avp:"Result-Code"`
+}
+
 func sc(name, dt, goT, wrap, tag string) FieldT {
 	return FieldT{AVP: name, DT: dt, Kind: KScalar, Go: goT, Wrap: wrap, Tag: tag}
 }
@@ -121,6 +143,11 @@ var declared = map[string]declType{
 		{AVP: "Proxy-Info", DT: gen.TGrouped, Kind: KStruct, Wrap: WPtr, Tag: TagOmit, Sub: specProxy},
 		sc("Auth-Application-Id", gen.TUnsigned32, "int", WSlice, TagPreOmit),
 	}},
+	"DeclD": {reflect.TypeOf(DeclD{}), []FieldT{
+		{Kind: KEmbed, Sub: specCommon},
+		{AVP: "Vendor-Specific-Application-Id", DT: gen.TGrouped, Kind: KStruct, Tag: TagPlain, Sub: []FieldT{{Kind: KEmbed, Sub: specVSA}}},
+		sc("Result-Code", gen.TUnsigned32, "uint32", WNone, TagPlain),
+	}},
 	"DeclC": {reflect.TypeOf(DeclC{}), []FieldT{
 		{Kind: KEmbed, Sub: []FieldT{
 			{Kind: KEmbed, Sub: specCommon},
@@ -131,7 +158,7 @@ var declared = map[string]declType{
 	}},
 }
 
-var declNames = []string{"DeclA", "DeclB", "DeclC"}
+var declNames = []string{"DeclA", "DeclB", "DeclC", "DeclD", "DeclD"}
 
 // sameLayout verifies that the spec mirrors the declared type: same number
 // of fields, same field types up to the names of struct types, same avp tag
